@@ -16,7 +16,7 @@ PROP = dict(
          "multi-keyword decks with explicit size keywords; 25% of the variants are split over nested INCLUDE files. Non-trivial: "
          "base parses, has >= 1 record and >= 1 rewrite rule changed the text; distinct = hash(base, variant)",
     stages=[
-        dict(id="gen", harness="c01_layout", flavour="plain", cases={Q: 40000, T: 600000}, timeout={Q: 900, T: 7200}, args=["mode=gen"]),
+        dict(id="gen", harness="c01_layout", flavour="plain", cases={Q: 40000, T: 1200000}, timeout={Q: 900, T: 7200}, args=["mode=gen"]),
         dict(id="shipped", harness="c01_layout", flavour="plain", cases={Q: 600, T: 6000}, timeout={Q: 900, T: 7200}, args=["mode=shipped"]),
         dict(id="gen_asan", harness="c01_layout", flavour="asan", cases={Q: 3000, T: 30000}, timeout={Q: 900, T: 7200}, args=["mode=gen"]),
     ],
